@@ -58,6 +58,7 @@ fn large() -> impl Strategy<Value = CallSet> {
                 info: f % 8,
                 fmt_dp: f & 16 != 0,
                 fmt_gq: f & 32 != 0,
+                ref_pad: 0,
                 has_gt: true,
                 force: 0,
                 gts,
@@ -163,8 +164,17 @@ fn eval(ctx: &Ctx, case: &Case) -> Verdict {
             let transport = if (case.draws[6] >> ti) & 1 == 0 { Transport::Path } else { Transport::StdinFile };
             let reps = if ti == 0 { 3 } else { 1 };
             for rep in 0..reps {
+                // repeated executions: unpinned, pinned to one CPU, pinned to two CPUs (different
+                // interleavings of the reader's worker threads)
+                let pin: Option<Vec<usize>> = match rep {
+                    1 => Some(vec![(case.draws[5] as usize) % 16]),
+                    2 => Some(vec![(case.draws[5] as usize) % 16, (case.draws[4] as usize) % 16]),
+                    _ => None,
+                };
+                cli::PIN_CPUS.with(|p| *p.borrow_mut() = pin.clone());
                 let (run, _) = run_create_bytes(ctx, &dir, "c12", &case.cs, &rendered[ci].0, containers[ci].ext(), &opts, transport);
-                compare(run, format!("{} with --threads {t} ({transport:?}, execution {rep})", containers[ci].label()))?;
+                cli::PIN_CPUS.with(|p| *p.borrow_mut() = None);
+                compare(run, format!("{} with --threads {t} ({transport:?}, execution {rep}, cpus {pin:?})", containers[ci].label()))?;
             }
         }
     }
@@ -209,7 +219,7 @@ fn eval(ctx: &Ctx, case: &Case) -> Verdict {
 pub fn check(ctx: &Ctx) -> Check {
     let parts: Vec<Box<dyn Part>> = vec![Box::new(RandomPart {
         name: "containers-transports-threads",
-        rule: "diploid call sets (incl. large cohorts of 120..400 samples so that 64 KiB blocks occur, and ~12% call sets that make the run fail) rendered as vcf / bgzf-vcf / bgzf-bcf / raw bcf with generated BGZF layouts (one line per block, 1-byte blocks, cuts inside lines and BCF records, 64 KiB payloads, stored/compressed, empty blocks first/middle/last, with and without EOF marker) x {path, stdin from file, stdin from pipe} x --threads from {1,2,3,4,8,16} x repeated executions x four environments (Turkish/German locale, exotic time zone, RUST_LOG=trace, HOME unset-like, forced colour); >=3 populations of unequal size: ALL executions of a case must have byte-identical stdout and equal exit status (~20 executions per case); non-trivial = an input of >=3 BGZF blocks",
+        rule: "diploid call sets (incl. large cohorts of 120..400 samples so that 64 KiB blocks occur, and ~12% call sets that make the run fail) rendered as vcf / bgzf-vcf / bgzf-bcf / raw bcf with generated BGZF layouts (one line per block, 1-byte blocks, cuts inside lines and BCF records, 64 KiB payloads, stored/compressed, empty blocks first/middle/last, with and without EOF marker) x {path, stdin from file, stdin from pipe} x --threads from {1,2,3,4,8,16} x repeated executions (unpinned, pinned to one CPU, pinned to two CPUs) x four environments (Turkish/German locale, exotic time zone, RUST_LOG=trace, HOME unset-like, forced colour); >=3 populations of unequal size: ALL executions of a case must have byte-identical stdout and equal exit status (~20 executions per case); non-trivial = an input of >=3 BGZF blocks",
         cases: ctx.tier.pick(120, 3000),
         strategy: Box::new(|| strategy().boxed()),
         eval: Box::new(eval),
